@@ -2,6 +2,7 @@
 //! decaf377 with --no-default-features), both built with --cfg decaf377_verif against /repo.
 mod bfs;
 mod c10;
+mod c17;
 mod core;
 mod explorer;
 mod fields;
@@ -85,6 +86,10 @@ fn dispatch(ctx: &Arc<Ctx>) -> &'static str {
             explorer::run(ctx, explorer::Sel::from(&ctx.prop).unwrap());
             "model_checking"
         }
+        "C17" => {
+            c17::run(ctx);
+            "exploration"
+        }
         "C10" => {
             c10::run(ctx);
             "model_checking"
@@ -123,6 +128,10 @@ fn replay(doc: &Value) -> i32 {
                     (ok, Value::Array(trace))
                 }
                 e if e.starts_with("E3/C10") || e.starts_with("E1/C10") => match guarded(|| c10::replay(&doc["case"])) {
+                    Ok(r) => r,
+                    Err(m) => (false, Value::String(format!("panic: {m}"))),
+                },
+                e if e.starts_with("E3/C17") => match guarded(|| c17::replay(&doc["case"])) {
                     Ok(r) => r,
                     Err(m) => (false, Value::String(format!("panic: {m}"))),
                 },
